@@ -1,32 +1,52 @@
 (* C11 -- overlay disk state matches the live view across restart; copy-up preserves files.
    Only statements, closed by [exact]; proofs live in Proofs/Overlay*.v. *)
 From Coq Require Import List String NArith Bool.
-From FB Require Import Model.Overlay Proofs.OverlayInv Proofs.OverlayScan Proofs.OverlayRestart Proofs.OverlayCopyUp.
+From FB Require Import Model.Overlay Proofs.OverlayInv Proofs.OverlayScan Proofs.OverlayRestart Proofs.OverlayCopyUp Proofs.OverlayReadOnly.
 Import ListNotations.
 Local Open Scope string_scope.
 Local Open Scope N_scope.
 Local Open Scope list_scope.
 
-(* the full statement (Definition C11_full in Proofs/OverlayRestart.v):
-     forall u ls nx ops, restart_same_view u ls nx ops
-   is refuted by the faithful model; both witnesses reproduce on the real code *)
-Theorem C11_refuted : ~ C11_full.
-Proof. exact restart_refuted. Qed.
-Theorem C11_witness_mkdir_over_whiteout :
+(* The full statement is Definition C11_full (Proofs/OverlayRestart.v):
+     forall u ls nx ops, restart_same_view u ls nx ops.
+   It is NOT proved for all operations (see C11_restart_partial below for the proved class).
+   The two histories that refuted it before the fix: commits 7b264a9 and 2d8d33e are now instances of it:
+   the re-created directory is opaque on disk, the unlinked shadowing file leaves a whiteout. *)
+Example C11_fixed_mkdir_over_whiteout :
   let s := run_dumps w_ops (load_all (fresh (Some w_upper) [w_lower] 1000)) in
   ser_opt (view (load_all s)) = "d1ed(d=d1ed(),)" /\
-  ser_opt (view (load_all (restart s))) = "d1ed(d=d1ed(old=f1a4:6f,),)".
+  ser_opt (view (load_all (restart s))) = "d1ed(d=d1ed(),)" /\
+  upper s = Some (Dir 493 [] [("d", Dir 493 [("user.fuseoverlayfs.opaque", [121])] [])]).
 Proof. exact witness_mkdir. Qed.
-Theorem C11_witness_unlink_shadowing_file :
+Example C11_fixed_unlink_shadowing_file :
   let s := run_dumps [(true, OUnlink ["c"])] (load_all (fresh (Some w2_upper) [w2_lower] 1000)) in
   ser_opt (view (load_all s)) = "d1ed()" /\
-  ser_opt (view (load_all (restart s))) = "d1ed(c=f1a4:6c,)".
+  ser_opt (view (load_all (restart s))) = "d1ed()" /\
+  upper s = Some (Dir 493 [] [("c", Wh)]).
 Proof. exact witness_unlink. Qed.
+
+(* Restart equivalence, proved part: for ALL layer contents (layer roots are directories with
+   distinct names per directory) and all histories made of
+     lookup, getattr, readdir, read, readlink, open(O_RDONLY), getxattr, listxattr
+   (with or without tree walks in between) a freshly started overlay shows the tree the live one
+   shows.  Histories containing modifying operations: stated (C11_full), not proved. *)
+Theorem C11_restart_partial : forall u ls nx ops,
+  Forall layer_ok (all_layers u ls) -> readonly_history ops = true -> restart_same_view u ls nx ops.
+Proof. exact restart_partial. Qed.
+Example C11_restart_partial_nonvacuous :
+  let u := Dir 493 [] [("d", Dir 493 [] [("n", File 1 420 [] [])]); ("w", Wh)] in
+  let l := Dir 493 [] [("d", Dir 448 [] [("o", File 2 420 [] [])]); ("w", Lnk [97])] in
+  Forall layer_ok (all_layers (Some u) [l]) /\
+  readonly_history [(false, OLookup ["d"; "o"]); (true, OReaddir ["d"]); (false, ORead ["d"; "n"] 0 4)] = true.
+Proof.
+  cbv zeta. split; [|reflexivity].
+  repeat (first [apply Forall_cons | apply Forall_nil | split | apply wf_dir | apply wf_file | apply wf_lnk | apply wf_wh
+                | apply NoDup_cons | apply NoDup_nil | (cbn; intuition discriminate) | reflexivity ]).
+Qed.
 
 (* What a restarted instance shows is exactly the overlayfs union of the layer directories as they
    are on disk, in EVERY state: restart equivalence therefore fails exactly where the live cache
-   disagrees with the union of the disk state.  Outside the two known classes that is stated as
-   Definition C11_partial_statement (Proofs/OverlayRestart.v) and NOT proved. *)
+   disagrees with the union of the disk state. *)
 Theorem C11_restart_shows_union : forall s, Forall layer_ok (all_layers (upper s) (lowers s)) ->
   view (load_all (restart s)) = merge (all_layers (upper s) (lowers s)).
 Proof. exact restart_shows_union. Qed.
@@ -74,10 +94,8 @@ Proof.
   split; [eexists; eexists; vm_compute; repeat split|]. vm_compute. split; reflexivity.
 Qed.
 
-Print Assumptions C11_refuted.
-Print Assumptions C11_witness_mkdir_over_whiteout.
-Print Assumptions C11_witness_unlink_shadowing_file.
 Print Assumptions C11_restart_shows_union.
 Print Assumptions C11_copy_up_preserves_file.
 Print Assumptions C11_copy_up_preserves_symlink.
 Print Assumptions C11_copy_up_preserves_dir.
+Print Assumptions C11_restart_partial.
